@@ -54,7 +54,7 @@ def run(ck):
         # every part is fed WHOLE: nothing that reaches the digest is a sub-range of a field (the stem bytes include the byte that
         # holds the last nibble of an odd-length stem; dropping it makes states that differ in that nibble hash alike)
         cuts = [(bi, t) for (bi, t) in f.calls(r"ops::Index::index$|slice::<impl \[T\]>::(get|split_at|first|last|chunks)$|Iterator::(take|skip)$")
-                if re.search(r"Range|usize", " ".join(t["f"].get("gargs") or []))]
+                if re.search(r"Range|usize", " ".join(t["f"].get("gargs") or [])) and not re.search(r"RangeFull", " ".join(t["f"].get("gargs") or []))]
         ck.ob("COV", f.path, "parts-fed-whole", not cuts, "no sub-range of a node part is taken in Node::hash" if not cuts else
               "a sub-range (%s) is taken in Node::hash: part of a field does not reach the digest" % cuts[0][1]["f"]["name"], f.loc(cuts[0][0]) if cuts else f.loc(), nontrivial=False)
 
